@@ -223,23 +223,21 @@ theorem Steps.frame {b b' : Book} (s : Steps b b') :
 
 /-! ### CreateLeaf -/
 
-/-- `CreateLeaf` refines the transition system, provided the hash of the freshly sealed vertex does
-not collide with a checkpointed vertex (the new hash covers a fresh time stamp; collision freedom
-of SHA-256 is the cryptographic assumption). -/
-theorem steps_createLeaf (b : Book) (trx : Trx) (o1 o2 : List Hash) (tip : Vertex)
-    (hfresh : b.cpHasVertex tip.hash = false) : Steps b (b.createLeaf trx o1 o2 tip).1 := by
-  unfold createLeaf
-  split; · exact Steps.refl _
-  rename_i hl
-  split; · exact Steps.refl _
-  rename_i hne
-  split; · exact Steps.refl _
-  rename_i hcan
-  split; · exact Steps.refl _
-  rename_i hown
-  split; · exact Steps.refl _
-  rename_i hgen
-  split; · exact Steps.refl _
+/-- what the locked body of `CreateLeaf` needs of the book it runs on -/
+structure CreateGuards (b : Book) (trx : Trx) : Prop where
+  loaded : b.loaded = true
+  notEmpty : trx.isEmpty = false
+  canon : trx.spice.canonB = true
+  notOwn : trx.issuer ≠ b.self
+  notGenesis : trx.issuer ≠ b.genesis
+
+/-- The locked body of `CreateLeaf` refines the transition system on whatever book it finds when it gets
+the lock, provided the hash of the freshly sealed vertex does not collide with a checkpointed vertex (the
+new hash covers a fresh time stamp; collision freedom of SHA-256 is the cryptographic assumption). The
+unlocked "transaction already sealed" look-up is not needed: `insertLinked` repeats it atomically. -/
+theorem steps_createLeafLocked (b : Book) (trx : Trx) (o1 o2 : List Hash) (tip : Vertex) (g : CreateGuards b trx)
+    (hfresh : b.cpHasVertex tip.hash = false) : Steps b (b.createLeafLocked trx o1 o2 tip).1 := by
+  unfold createLeafLocked
   have s1 := steps_getValidLeaves b o1
   have s2 := steps_getValidLeaves (b.getValidLeaves o1).book o2
   simp only
@@ -274,16 +272,34 @@ theorem steps_createLeaf (b : Book) (trx : Trx) (o1 o2 : List Hash) (tip : Verte
       have hright : tip.right = (r.getD l).hash := by rw [← heqv]
       obtain ⟨f1, f2, f3, f4, _⟩ := hb1.frame
       have pre : PreInsert b1 tip := {
-        loaded := by rw [f1]; simpa using hl
-        notOwn := by rw [hsigner, htrx]; simpa using hown
-        notGenesis := by rw [htrx, f2]; simpa using hgen
-        notEmpty := by rw [htrx]; simpa using hne
-        canon := by rw [htrx]; simpa using hcan
+        loaded := by rw [f1]; exact g.loaded
+        notOwn := by rw [hsigner, htrx]; exact g.notOwn
+        notGenesis := by rw [htrx, f2]; exact g.notGenesis
+        notEmpty := by rw [htrx]; exact g.notEmpty
+        canon := by rw [htrx]; exact g.canon
         vok := hvok
         freshCp := by simpa [cpHasVertex, f4] using hfresh }
       have hins := steps_insertLinked b1 tip pre
       rw [hleft, hright] at hins
       split <;> (rename_i heq2; rw [heq2] at hins; exact hb1.trans hins)
+
+/-- `CreateLeaf` (checks and locked body on the same book) refines the transition system. -/
+theorem steps_createLeaf (b : Book) (trx : Trx) (o1 o2 : List Hash) (tip : Vertex)
+    (hfresh : b.cpHasVertex tip.hash = false) : Steps b (b.createLeaf trx o1 o2 tip).1 := by
+  unfold createLeaf
+  split; · exact Steps.refl _
+  rename_i hl
+  split; · exact Steps.refl _
+  rename_i hne
+  split; · exact Steps.refl _
+  rename_i hcan
+  split; · exact Steps.refl _
+  rename_i hown
+  split; · exact Steps.refl _
+  rename_i hgen
+  split; · exact Steps.refl _
+  exact steps_createLeafLocked b trx o1 o2 tip
+    ⟨by simpa using hl, by simpa using hne, by simpa using hcan, by simpa using hown, by simpa using hgen⟩ hfresh
 
 /-! ### addLeafMemorized / AddLeaf / retry -/
 
@@ -325,6 +341,36 @@ theorem steps_checkParents (b : Book) (leaf : Vertex) (rep : Nat) (hs : List Has
         intro vs hvs
         rw [hv vs hvs]; simp [hhash]
 
+/-- The locked body of `addLeafMemorized` refines the transition system on whatever book it finds when it
+gets the lock; the unlocked "vertex / transaction already known" look-ups are not needed for the live part
+(`insertLinked` repeats them atomically), only that the hash is not a checkpointed one. -/
+theorem steps_addLeafLocked (b : Book) (leaf : Vertex) (rep : Nat) (hg : AddGuards b leaf)
+    (hgen : leaf.trx.issuer ≠ b.genesis) (hvok : leaf.vok = true) (hcp : b.cpHasVertex leaf.hash = false) :
+    Steps b (b.addLeafLocked leaf rep).1 := by
+  unfold addLeafLocked
+  obtain ⟨scp, hvm⟩ := steps_checkParents b leaf rep [leaf.left, leaf.right] [] hg
+  split
+  · rename_i b1 e heq; rw [heq] at scp; exact scp
+  · rename_i b1 validated heq
+    rw [heq] at scp hvm
+    obtain ⟨f1, f2, f3, f4, _⟩ := scp.frame
+    have pre : PreInsert b1 leaf := {
+      loaded := by rw [f1]; exact hg.1
+      notOwn := hg.2.1
+      notGenesis := by rw [f2]; exact hgen
+      notEmpty := hg.2.2.1
+      canon := hg.2.2.2
+      vok := hvok
+      freshCp := by
+        unfold cpHasVertex at hcp ⊢
+        rw [f4]; exact hcp }
+    have hmap : validated.map (·.hash) = [leaf.left, leaf.right] := by
+      have := hvm validated rfl
+      simpa using this
+    have hins := steps_insertLinked b1 leaf pre
+    rw [← hmap] at hins
+    split <;> (rename_i heq2; rw [heq2] at hins; exact scp.trans hins)
+
 theorem steps_addLeafMemorized (b : Book) (leaf : Vertex) (rep : Nat) (hg : AddGuards b leaf) :
     Steps b (b.addLeafMemorized leaf rep).1 := by
   unfold addLeafMemorized
@@ -335,30 +381,9 @@ theorem steps_addLeafMemorized (b : Book) (leaf : Vertex) (rep : Nat) (hg : AddG
   split; · exact Steps.refl _
   split; · exact Steps.refl _
   rename_i hvok
-  obtain ⟨scp, hvm⟩ := steps_checkParents b leaf rep [leaf.left, leaf.right] [] hg
-  split
-  · rename_i b1 e heq; rw [heq] at scp; exact scp
-  · rename_i b1 validated heq
-    rw [heq] at scp hvm
-    obtain ⟨f1, f2, f3, f4, _⟩ := scp.frame
-    have pre : PreInsert b1 leaf := {
-      loaded := by rw [f1]; exact hg.1
-      notOwn := hg.2.1
-      notGenesis := by rw [f2]; simpa using hgen
-      notEmpty := hg.2.2.1
-      canon := hg.2.2.2
-      vok := by simpa using hvok
-      freshCp := by
-        simp only [checkVertexExists, Bool.or_eq_true, not_or, Bool.not_eq_true] at hex
-        have := hex.2
-        unfold cpHasVertex at this ⊢
-        rw [f4]; exact this }
-    have hmap : validated.map (·.hash) = [leaf.left, leaf.right] := by
-      have := hvm validated rfl
-      simpa using this
-    have hins := steps_insertLinked b1 leaf pre
-    rw [← hmap] at hins
-    split <;> (rename_i heq2; rw [heq2] at hins; exact scp.trans hins)
+  refine steps_addLeafLocked b leaf rep hg (by simpa using hgen) (by simpa using hvok) ?_
+  simp only [checkVertexExists, Bool.or_eq_true, not_or, Bool.not_eq_true] at hex
+  exact hex.2
 
 theorem steps_addLeaf (b : Book) (leaf : Vertex) : Steps b (b.addLeaf leaf).1 := by
   unfold addLeaf
